@@ -30,17 +30,17 @@ pub struct PyTxIn {
 }
 
 impl PyTxIn {
-    fn as_txin(&self) -> TxIn {
+    fn as_txin(&self) -> Result<TxIn, ChainGangError> {
         // convert hexstr to bytes and reverse
-        let hash = Hash256::decode(&self.prev_tx).expect("Error decoding hexstr prev outpoint");
-        TxIn {
+        let hash = Hash256::decode(&self.prev_tx)?;
+        Ok(TxIn {
             prev_output: OutPoint {
                 hash,
                 index: self.prev_index,
             },
             sequence: self.sequence,
             unlock_script: self.script_sig.as_script(),
-        }
+        })
     }
 }
 
@@ -168,15 +168,14 @@ pub struct PyTx {
 }
 
 impl PyTx {
-    pub fn as_tx(&self) -> Tx {
-        Tx {
+    pub fn as_tx(&self) -> Result<Tx, ChainGangError> {
+        Ok(Tx {
             version: self.version,
             inputs: self
                 .tx_ins
-                .clone()
-                .into_iter()
+                .iter()
                 .map(|x| x.as_txin())
-                .collect(),
+                .collect::<Result<Vec<TxIn>, ChainGangError>>()?,
             outputs: self
                 .tx_outs
                 .clone()
@@ -184,7 +183,7 @@ impl PyTx {
                 .map(|x| x.as_txout())
                 .collect(),
             lock_time: self.locktime,
-        }
+        })
     }
 }
 
@@ -215,7 +214,7 @@ impl PyTx {
     /// Human-readable hexadecimal of the transaction hash"""
     /// def id(self) -> str:
     fn id(&self) -> PyResult<String> {
-        let tx = self.as_tx();
+        let tx = self.as_tx()?;
         let hash = tx.hash();
         Ok(hash.encode())
     }
@@ -223,22 +222,22 @@ impl PyTx {
     /// Binary hash of the serialization
     /// def hash(self) -> bytes:
     fn hash(&self, py: Python<'_>) -> PyResult<PyObject> {
-        let tx = self.as_tx();
+        let tx = self.as_tx()?;
         let hash = tx.hash();
         let bytes = PyBytes::new(py, &hash.0);
         Ok(bytes.into())
     }
 
     /// Returns true if it is a coinbase transaction
-    fn is_coinbase(&self) -> bool {
-        let tx = self.as_tx();
-        tx.coinbase()
+    fn is_coinbase(&self) -> PyResult<bool> {
+        let tx = self.as_tx()?;
+        Ok(tx.coinbase())
     }
 
     /// Note that we return PyResult<PyObject> and not PyResult<PyBytes>
     fn serialize(&self, py: Python<'_>) -> PyResult<PyObject> {
         let mut v = Vec::new();
-        let tx = self.as_tx();
+        let tx = self.as_tx()?;
         tx.write(&mut v)?;
         let bytes = PyBytes::new(py, &v);
         Ok(bytes.into())
@@ -247,7 +246,7 @@ impl PyTx {
     /// Return tx as hexstr
     fn as_hexstr(&self) -> PyResult<String> {
         let mut v = Vec::new();
-        let tx = self.as_tx();
+        let tx = self.as_tx()?;
         tx.write(&mut v)?;
         let hexstr = hex::encode(v);
         Ok(hexstr)
@@ -298,7 +297,7 @@ impl PyTx {
     // This will only work on post genesis txs
     // This will only work for non coinbase transactions
     fn validate(&self, utxos: Vec<PyTx>) -> PyResult<()> {
-        let tx = self.as_tx();
+        let tx = self.as_tx()?;
         if tx.coinbase() {
             let msg = "Validate can not check coinbase transactions.".to_string();
             return Err(ChainGangError::BadData(msg).into());
@@ -310,9 +309,8 @@ impl PyTx {
         // Speed up the OutPoint lookups by preparing HashMap
         let utxo_as_tx: HashMap<Hash256, Tx> = utxos
             .iter()
-            .map(|x| x.as_tx())
-            .map(|tx| (tx.hash(), tx))
-            .collect();
+            .map(|x| x.as_tx().map(|tx| (tx.hash(), tx)))
+            .collect::<Result<HashMap<Hash256, Tx>, ChainGangError>>()?;
 
         // Convert input utxos into processed_utxo: &LinkedHashMap<OutPoint, TxOut>,
         let mut processed_utxo: LinkedHashMap<OutPoint, TxOut> = LinkedHashMap::new();
